@@ -464,6 +464,26 @@ theorem poly_with_input_transform (P : Poly2d) (A : Aff) (p : Rat × Rat) :
     (P.withInputTransform A).eval p = P.eval (A.apply p) := by
   simp only [Poly2d.eval, Poly2d.withInputTransform, poly_norm_eq_apply, Aff.apply_mul]
 
+/-- **`grid2d` is pointwise evaluation**: whenever it returns, `out[i][j]` is the value of the
+polynomial at `(xs[i], ys[j])` — first index along `x`, second along `y`, any lengths. -/
+theorem poly_grid2d_pointwise (P : Poly2d) (xs ys : List Rat) (out : List (List (Rat × Rat)))
+    (h : P.grid2d xs ys = .ok out) :
+    out = xs.map fun x => ys.map fun y => P.eval (x, y) := by
+  unfold Poly2d.grid2d at h
+  split at h
+  · exact absurd h (by simp)
+  · rename_i hst
+    have hst' : P.A.b = 0 ∧ P.A.d = 0 := not_not.mp hst
+    have := Except.ok.inj h
+    subst this
+    simp only [List.map_map, Function.comp_def, Poly2d.eval, Poly2d.norm, if_pos hst']
+
+/-- `grid2d` refuses input transforms with rotation or shear (as after `with_input_transform` of a
+rotated map): the axes are not separable there. -/
+theorem poly_grid2d_rejects_rotated (P : Poly2d) (xs ys : List Rat) (h : ¬ (P.A.b = 0 ∧ P.A.d = 0)) :
+    P.grid2d xs ys = .error .assertion := by
+  unfold Poly2d.grid2d; rw [if_pos h]
+
 /-- Before the repair (`_norm` ignored off-diagonal terms below an absolute `1e-6`) the
 composition law failed: normalising scale `2⁻¹⁴`, input rotated by `2⁻⁶` rad-ish shear, point
 `(0, 2¹⁴)` (replayed on the real code by the harness: key
